@@ -180,6 +180,42 @@ theorem C06_units_agree :
     by decide +kernel, by decide +kernel, by decide +kernel, by decide +kernel, rfl,
     fun x => rfl, fun x => ⟨by ring, by ring⟩⟩
 
+/-- **C06_query_unit_invariant** — the result of `query` does not depend on the unit in
+which the radius is written: two radius arguments (numbers or strings) that
+`to_kilometers` maps to the same value — or rejects with the same error — give the same
+outcome of `GeoIndex.query`, for every index, tree and query points. -/
+theorem C06_query_unit_invariant {P α : Type} [NatCast α] [Mul α] [Div α] (cast : Rat → α)
+    (T : TreeFn P α) (ix : Index P) (qs : List P) (r1 r2 : Dist)
+    (h : toKilometers r1 = toKilometers r2) :
+    queryArg cast T ix qs r1 = queryArg cast T ix qs r2 := by
+  unfold queryArg; rw [h]
+
+/-- … in particular `'5 km'`, `'5000 m'`, `'500000 cm'`, `'5'` and the number 5 give the
+same pairs and distances, namely those of radius 5 km; `'0 km'` and an unknown unit raise. -/
+theorem C06_query_unit_examples {P α : Type} [NatCast α] [Mul α] [Div α] (cast : Rat → α)
+    (T : TreeFn P α) (ix : Index P) (qs : List P) :
+    queryArg cast T ix qs (.str "5 km") = query T ix qs (cast 5) ∧
+    queryArg cast T ix qs (.str "5000 m") = query T ix qs (cast 5) ∧
+    queryArg cast T ix qs (.str "500000 cm") = query T ix qs (cast 5) ∧
+    queryArg cast T ix qs (.str "5") = query T ix qs (cast 5) ∧
+    queryArg cast T ix qs (.num 5) = query T ix qs (cast 5) ∧
+    queryArg cast T ix qs (.str "0 km") = .error .valueError ∧
+    queryArg cast T ix qs (.str "5 parsec") = .error .valueError := by
+  obtain ⟨h1, h2, h3, h4, _, h6, h7, _⟩ := C06_units_agree
+  refine ⟨?_, ?_, ?_, ?_, rfl, ?_, ?_⟩ <;> simp only [queryArg, h1, h2, h3, h4, h6, h7]
+
+/-- **C06_queryArg_spec** — `query` with the radius as the user writes it: when
+`to_kilometers` accepts it as `km`, the answer meets `QuerySpec` for `km` kilometres (for
+every permutation, tree obeying the contract, both metrics). -/
+theorem C06_queryArg_spec {P α : Type} [Field α] [LinearOrder α] [IsStrictOrderedRing α]
+    (cast : Rat → α) (dist : P → P → α) (T : TreeFn P α) (hT : TreeOK dist T) (m : Metric)
+    (hm : m ≠ .unknown) (pts qs : List P) (r : Dist) (km : Rat) (hr : toKilometers r = .ok km)
+    (shuffle : Option (List Nat)) (hσ : ValidShuffle pts.length shuffle) :
+    ∃ ix pairs ds, Index.build m pts shuffle = .ok ix ∧
+      queryArg cast T ix qs r = .ok (pairs, ds) ∧ QuerySpec m dist pts qs (cast km) pairs ds := by
+  obtain ⟨ix, pairs, ds, h1, h2, h3⟩ := query_spec dist T hT m hm pts qs (cast km) shuffle hσ
+  exact ⟨ix, pairs, ds, h1, by simp only [queryArg, hr, h2], h3⟩
+
 /-! ## Non-vacuity: the contract is satisfiable, the theorems apply to concrete data -/
 
 -- `bruteTree` and `bruteTree_ok : TreeOK dist (bruteTree dist)` (Proofs/Lemmas/GeoIndex.lean): a brute-force
@@ -202,4 +238,5 @@ example : ValidShuffle 4 none := trivial
 
 assert_axioms C06_query_spec C06_config_invariant C06_shuffle_invariant C06_tree_class_invariant
   C06_leaf_invariant C06_nodist_eq C06_units_table C06_units C06_units_scan C06_units_agree
+  C06_query_unit_invariant C06_query_unit_examples C06_queryArg_spec
   bruteTree_ok
